@@ -31,14 +31,14 @@
 #endif
 #define G_NONE (-1)
 
-static bool g_live[2][G_MAXID], p_live[2][G_MAXID];
+static int  g_live[2][G_MAXID], p_live[2][G_MAXID];
 static int  g_loc[2][G_MAXID], p_loc[2][G_MAXID];
 static int  g_rank[2][G_MAXID], p_rank[2][G_MAXID];
-static bool g_touched[2][G_MAXID];
+static int  g_touched[2][G_MAXID];
 static int  g_next[2];
 static int  g_ndim[2];
-static bool g_grid[2];
-static bool g_baddel[2];
+static int  g_grid[2];
+static int  g_baddel[2];
 static Db*  g_db[2];
 
 static int gw(const Db* d) { return (d == g_db[0]) ? 0 : 1; }
@@ -63,94 +63,125 @@ static void ghost_enums()
   g_eloc(ELoc::SIMU, 22);
 }
 
-// ---- ghost primitives
-static bool g_valid(int w, int iuid) { return iuid >= 0 && iuid < G_MAXID && g_live[w][iuid]; }
+// ---- ghost primitives.  Written without data-dependent branches (conditional expressions over
+// every identifier) so that the symbolic executor does not fork inside the model.
+#define G_IS(w, i, t, r) ((g_live[w][i] != 0) ? ((g_loc[w][i] == (t)) ? (g_rank[w][i] == (r)) : false) : false)
+static bool g_valid(int w, int iuid)
+{
+  bool ok = false;
+  for (int i = 0; i < G_MAXID; i++) ok = (i == iuid) ? (g_live[w][i] != 0) : ok;
+  return ok;
+}
 // the column holding (type, rank) loses its role; other ranks stay (PtrGeos::setLocatorByIndex overwrites)
 static void g_unrole(int w, int type, int rank)
 {
   for (int i = 0; i < G_MAXID; i++)
-    if (g_live[w][i] && g_loc[w][i] == type && g_rank[w][i] == rank) { g_loc[w][i] = G_NONE; g_rank[w][i] = 0; }
+  {
+    bool hit = G_IS(w, i, type, rank);
+    g_loc[w][i] = hit ? G_NONE : g_loc[w][i];
+    g_rank[w][i] = hit ? 0 : g_rank[w][i];
+  }
 }
 // column iuid gives its role up and the higher ranks of that type move down (PtrGeos::erase)
 static void g_erase(int w, int iuid)
 {
-  int t = g_loc[w][iuid], r = g_rank[w][iuid];
-  g_loc[w][iuid] = G_NONE;
-  g_rank[w][iuid] = 0;
-  if (t < 0) return;
+  int t = G_NONE, r = 0;
   for (int i = 0; i < G_MAXID; i++)
-    if (g_live[w][i] && g_loc[w][i] == t && g_rank[w][i] > r) g_rank[w][i]--;
+  {
+    bool me = (i == iuid);
+    t = me ? g_loc[w][i] : t;
+    r = me ? g_rank[w][i] : r;
+    g_loc[w][i] = me ? G_NONE : g_loc[w][i];
+    g_rank[w][i] = me ? 0 : g_rank[w][i];
+  }
+  for (int i = 0; i < G_MAXID; i++)
+  {
+    bool up = (t >= 0) ? ((g_live[w][i] != 0) ? ((g_loc[w][i] == t) ? (g_rank[w][i] > r) : false) : false) : false;
+    g_rank[w][i] = up ? g_rank[w][i] - 1 : g_rank[w][i];
+  }
 }
 static int g_count(int w, int type)
 {
-  if (type < 0) return 0;
   int n = 0; // PtrGeos::getLocatorNumber: highest rank in use + 1
   for (int i = 0; i < G_MAXID; i++)
-    if (g_live[w][i] && g_loc[w][i] == type && g_rank[w][i] + 1 > n) n = g_rank[w][i] + 1;
+  {
+    bool in = (type >= 0) ? ((g_live[w][i] != 0) ? ((g_loc[w][i] == type) ? (g_rank[w][i] + 1 > n) : false) : false) : false;
+    n = in ? g_rank[w][i] + 1 : n;
+  }
   return n;
 }
 static int g_find(int w, int type, int rank)
 {
   int r = -1;
-  for (int i = 0; i < G_MAXID; i++)
-    if (g_live[w][i] && g_loc[w][i] == type && g_rank[w][i] == rank) r = i;
+  for (int i = 0; i < G_MAXID; i++) r = G_IS(w, i, type, rank) ? i : r;
   return r;
 }
+// setLocatorByUID on a valid identifier
 static void g_setrole(int w, int iuid, int type, int rank)
 {
-  if (!g_valid(w, iuid)) return;
-  if (rank < 0) rank = g_count(w, type);
-  g_erase(w, iuid);
-  if (type >= 0)
+  bool ok = g_valid(w, iuid);
+  int id = ok ? iuid : -1; // -1 matches no identifier: nothing happens
+  int rk = (rank < 0) ? g_count(w, type) : rank;
+  g_erase(w, id);
+  g_unrole(w, (ok && type >= 0) ? type : -2, rk);
+  for (int i = 0; i < G_MAXID; i++)
   {
-    g_unrole(w, type, rank);
-    g_loc[w][iuid] = type;
-    g_rank[w][iuid] = rank;
+    bool me = (i == id) ? (type >= 0) : false;
+    g_loc[w][i] = me ? type : g_loc[w][i];
+    g_rank[w][i] = me ? rk : g_rank[w][i];
   }
 }
 static void g_clear(int w, int type)
 {
   for (int i = 0; i < G_MAXID; i++)
-    if (g_live[w][i] && g_loc[w][i] == type) { g_loc[w][i] = G_NONE; g_rank[w][i] = 0; }
+  {
+    bool hit = (g_live[w][i] != 0) ? (g_loc[w][i] == type) : false;
+    g_loc[w][i] = hit ? G_NONE : g_loc[w][i];
+    g_rank[w][i] = hit ? 0 : g_rank[w][i];
+  }
 }
+// nadd is a concrete number in every kernel (it sizes the calculators' own vectors)
 static int g_add(int w, int nadd, int type, int rank)
 {
   if (nadd <= 0) return -1;
   vf_assume(g_next[w] + nadd <= G_MAXID); // bound of the identifier space (stated in the registry)
   int first = g_next[w];
-  for (int i = 0; i < nadd; i++)
+  for (int i = 0; i < G_MAXID; i++)
   {
-    g_live[w][first + i] = true;
-    g_loc[w][first + i] = G_NONE;
-    g_rank[w][first + i] = 0;
-    g_touched[w][first + i] = false;
+    bool in = (i >= first) ? (i < first + nadd) : false;
+    g_live[w][i] = in ? 1 : g_live[w][i];
+    g_loc[w][i] = in ? G_NONE : g_loc[w][i];
+    g_rank[w][i] = in ? 0 : g_rank[w][i];
+    g_touched[w][i] = in ? 0 : g_touched[w][i];
   }
   g_next[w] = first + nadd;
   if (type >= 0)
   {
-    if (rank < 0) rank = g_count(w, type);
-    for (int i = 0; i < nadd; i++) g_setrole(w, first + i, type, rank + i);
+    int rk = (rank < 0) ? g_count(w, type) : rank;
+    for (int k = 0; k < nadd; k++) g_setrole(w, first + k, type, rk + k);
   }
   return first;
 }
 static void g_del(int w, int iuid)
 {
-  if (!g_valid(w, iuid)) { g_baddel[w] = true; return; }
-  g_erase(w, iuid);
-  g_live[w][iuid] = false;
+  bool ok = g_valid(w, iuid);
+  g_baddel[w] = ok ? g_baddel[w] : 1;
+  int id = ok ? iuid : -1;
+  g_erase(w, id);
+  for (int i = 0; i < G_MAXID; i++) g_live[w][i] = (i == id) ? 0 : g_live[w][i];
 }
 static void g_touch(int w, int iuid)
 {
-  if (g_valid(w, iuid)) g_touched[w][iuid] = true;
+  for (int i = 0; i < G_MAXID; i++) g_touched[w][i] = (i == iuid) ? ((g_live[w][i] != 0) ? 1 : g_touched[w][i]) : g_touched[w][i];
 }
 static void ghost_snapshot()
 {
   for (int w = 0; w < 2; w++)
   {
-    g_baddel[w] = false;
+    g_baddel[w] = 0;
     for (int i = 0; i < G_MAXID; i++)
     {
-      g_touched[w][i] = false;
+      g_touched[w][i] = 0;
       p_live[w][i] = g_live[w][i];
       p_loc[w][i] = g_loc[w][i];
       p_rank[w][i] = g_rank[w][i];
@@ -160,23 +191,29 @@ static void ghost_snapshot()
 // data base w compared with the snapshot: same live identifiers / same roles / contents untouched
 static bool ghost_same_ids(int w)
 {
-  bool ok = !g_baddel[w];
-  for (int i = 0; i < G_MAXID; i++)
-    if (g_live[w][i] != p_live[w][i]) ok = false;
+  bool ok = (g_baddel[w] == 0);
+  for (int i = 0; i < G_MAXID; i++) ok = ((g_live[w][i] != 0) == (p_live[w][i] != 0)) ? ok : false;
   return ok;
 }
 static bool ghost_same_roles(int w)
 {
   bool ok = true;
   for (int i = 0; i < G_MAXID; i++)
-    if (p_live[w][i] && g_live[w][i] && (g_loc[w][i] != p_loc[w][i] || g_rank[w][i] != p_rank[w][i])) ok = false;
+  {
+    bool both = (p_live[w][i] != 0) ? (g_live[w][i] != 0) : false;
+    bool diff = (g_loc[w][i] != p_loc[w][i]) ? true : (g_rank[w][i] != p_rank[w][i]);
+    ok = (both ? diff : false) ? false : ok;
+  }
   return ok;
 }
 static bool ghost_untouched(int w)
 {
   bool ok = true;
   for (int i = 0; i < G_MAXID; i++)
-    if (p_live[w][i] && g_live[w][i] && g_touched[w][i]) ok = false;
+  {
+    bool both = (p_live[w][i] != 0) ? (g_live[w][i] != 0) : false;
+    ok = (both ? (g_touched[w][i] != 0) : false) ? false : ok;
+  }
   return ok;
 }
 
@@ -193,7 +230,12 @@ void Db::deleteColumnsByLocator(const ELoc& locatorType)
   int t = locatorType.getValue();
   if (t < 0) return;
   for (int i = 0; i < G_MAXID; i++)
-    if (g_live[w][i] && g_loc[w][i] == t) { g_loc[w][i] = G_NONE; g_rank[w][i] = 0; g_live[w][i] = false; }
+  {
+    bool hit = (g_live[w][i] != 0) ? (g_loc[w][i] == t) : false;
+    g_loc[w][i] = hit ? G_NONE : g_loc[w][i];
+    g_rank[w][i] = hit ? 0 : g_rank[w][i];
+    g_live[w][i] = hit ? 0 : g_live[w][i];
+  }
 }
 int Db::getLocNumber(const ELoc& loctype) const { return g_count(gw(this), loctype.getValue()); }
 int Db::getLocatorNumber(const ELoc& locatorType) const { return g_count(gw(this), locatorType.getValue()); }
@@ -206,8 +248,7 @@ void Db::clearLocators(const ELoc& locatorType) { g_clear(gw(this), locatorType.
 void Db::setLocatorByUID(int iuid, const ELoc& locatorType, int locatorIndex, bool cleanSameLocator)
 {
   int w = gw(this);
-  if (!g_valid(w, iuid)) return;
-  if (cleanSameLocator) g_clear(w, locatorType.getValue());
+  if (cleanSameLocator && g_valid(w, iuid)) g_clear(w, locatorType.getValue());
   g_setrole(w, iuid, locatorType.getValue(), locatorIndex);
 }
 void Db::setLocatorsByUID(int number, int iuid, const ELoc& locatorType, int locatorIndex, bool cleanSameLocator)
@@ -244,7 +285,7 @@ void Db::setLocators(const VectorString& names, const ELoc& locatorType, int loc
   if (cleanSameLocator) g_clear(w, t);
   if (locatorIndex < 0) locatorIndex = g_count(w, t);
   for (int r = 0; r < G_MAXNAMES; r++)
-    if (r < g_names_n[w] && g_names_id[w][r] >= 0) g_setrole(w, g_names_id[w][r], t, locatorIndex + r);
+    g_setrole(w, (r < g_names_n[w]) ? g_names_id[w][r] : -1, t, locatorIndex + r);
 }
 
 // ---- ghost data bases: raw storage + the vptr of a harness class whose virtuals answer from the ghost
@@ -254,6 +295,6 @@ public:
   virtual bool isGrid() const override;
   virtual int getNDim() const override;
 };
-bool GhostDb::isGrid() const { return g_grid[gw(this)]; }
+bool GhostDb::isGrid() const { return g_grid[gw(this)] != 0; }
 int GhostDb::getNDim() const { return g_ndim[gw(this)]; }
 extern "C" char vt_GhostDb[] asm("_ZTV7GhostDb");
